@@ -448,6 +448,13 @@ func byteEq(a, b value) *Term {
 		if ta.op == oAtom && tb.op == oAtom && ta.name == tb.name && ta.a != nil && tb.a != nil && ta.a.w == tb.a.w {
 			return tt.Cmp(oEq, ta.a, tb.a)
 		}
+		// a formatted scalar never contains layout characters: comparing it
+		// with a newline, space or tab is exactly false
+		for _, x := range []value{a, b} {
+			if c, ok := x.(uint8); ok && (c == '\n' || c == ' ' || c == '\t' || c == '\r') {
+				return tt.tFals
+			}
+		}
 		cur.outOfModel("comparison of a formatted symbolic value with text")
 		return tt.tFals
 	}
